@@ -4,7 +4,7 @@
 //
 // End to end (public API, counting sinks, 10 s timeout => "timeout"):
 //
-//	mg <src>/<src>/...            Merge of Of(...) sources          -> `done|… n=.. | elems`
+//	mg <src>/<src>/...            Merge of Of(...) sources          -> `done|… n=.. | elems`   (mgb/ccb/zpb: slow consumer)
 //	cc <src>/<src>/...            Concat
 //	zp <src>/<src>/...            Zip                                -> elements are [a,b,..] tuples
 //	bc <n> <src>                  Broadcast to n branches            -> `st n | elems ## st n | elems ...` (one per branch)
@@ -117,12 +117,18 @@ func (c *collector) result(h stream.StreamHandle, deadline <-chan time.Time) str
 	return fmt.Sprintf("%s n=%d | %s", status, c.hooks.Load(), strings.Join(c.got, " "))
 }
 
-func runOne[T any](src stream.Source[T]) string {
-	c := newCollector(false)
+func runOne[T any](src stream.Source[T], blocked bool) string {
+	c := newCollector(blocked)
 	g := src.To(stream.VerifCountingSink(func(v T) error { return c.rec(v) }, func() { c.hooks.Add(1) }))
 	h, err := g.Run(ctx, sys)
 	if err != nil {
 		return "run-error " + err.Error()
+	}
+	if blocked {
+		// slow consumer: hold the sink while the sub-pipelines run to their end, so that the junction actor has
+		// to buffer what exceeds the sink's demand window
+		time.Sleep(400 * time.Millisecond)
+		close(c.gate)
 	}
 	return c.result(h, time.After(10*time.Second))
 }
@@ -164,12 +170,12 @@ func withPM(src stream.Source[int], f []string, at int) stream.Source[int] {
 
 func handleE2E(f []string) string {
 	switch f[0] {
-	case "mg":
-		return runOne(stream.Merge(parseSources(f[1])...))
-	case "cc":
-		return runOne(stream.Concat(parseSources(f[1])...))
-	case "zp":
-		return runOne(stream.Zip(parseSources(f[1])...))
+	case "mg", "mgb":
+		return runOne(stream.Merge(parseSources(f[1])...), f[0] == "mgb")
+	case "cc", "ccb":
+		return runOne(stream.Concat(parseSources(f[1])...), f[0] == "ccb")
+	case "zp", "zpb":
+		return runOne(stream.Zip(parseSources(f[1])...), f[0] == "zpb")
 	case "bc":
 		return runBranches(stream.Broadcast(stream.Of(parseInts(f[2])...), atoi(f[1])), false)
 	case "bl":
